@@ -254,6 +254,63 @@ def other_kinds(tm, V):
         if got != want:
             V.violation("scene:instance_placement", {"fmt": ft, "n_got": len(got), "n_want": len(want)},
                         "ThreeMFSceneRoundTrip" if ft == "3mf" else None)
+    # a group node (no geometry) carrying a rotation, with an offset instance underneath, next to a top-level
+    # instance: nested transforms that do not commute; and an empty geometry registered before real ones
+    def grouped(with_empty):
+        b = tm.creation.box(extents=[1, 2, 3])
+        t = tm.Trimesh([[0, 0, 0], [2, 0, 0], [0, 4, 0], [0, 0, 1]], [[0, 2, 1], [0, 1, 3], [1, 2, 3], [2, 0, 3]], process=False)
+        s = tm.Scene()
+        if with_empty:
+            s.add_geometry(tm.Trimesh(), geom_name="nothing", node_name="nothing")
+        G = np.eye(4)
+        G[:3, :3] = [[0, -1, 0], [1, 0, 0], [0, 0, 1]]
+        G[:3, 3] = [0, 5, 0]
+        O = np.eye(4)
+        O[:3, 3] = [7, 0, 0]
+        P = np.eye(4)
+        P[:3, 3] = [20, 0, 0]
+        s.add_geometry(b, geom_name="box", node_name="box", transform=P)
+        s.graph.update(frame_from="world", frame_to="group", matrix=G)
+        s.add_geometry(b, geom_name="box", node_name="inner", parent_node_name="group", transform=O)
+        s.add_geometry(t, geom_name="tet", node_name="tet", parent_node_name="group", transform=P)
+        return s
+    for with_empty in (False, True):
+        want = tribag(grouped(with_empty))
+        for ft in ("glb", "3mf"):
+            s = grouped(with_empty)
+            try:
+                data = s.export(file_type=ft)
+                r = tm.load_scene(io.BytesIO(data), file_type=ft, process=False)
+            except BaseException as e:  # noqa
+                V.violation("scene:round_trip_raises", {"fmt": ft, "grouped": True, "empty_geometry_first": with_empty, "exc": type(e).__name__ + ": " + str(e)[:80]})
+                continue
+            n += 1
+            kinds.add(("scene_grouped%d" % with_empty, ft))
+            got = tribag(r)
+            if got != want:
+                V.violation("scene:instance_placement", {"fmt": ft, "grouped": True, "empty_geometry_first": with_empty, "n_got": len(got), "n_want": len(want)})
+    # large index values: an un-merged soup whose vertex indices exceed 65535 although it has fewer than 65535 faces
+    nf = 22000
+    sv = np.zeros((nf * 3, 3))
+    sv[:, 0] = np.arange(nf * 3) % 251
+    sv[:, 1] = (np.arange(nf * 3) // 251) % 263
+    sv[:, 2] = (np.arange(nf * 3) * 7) % 13
+    sf = np.arange(nf * 3).reshape(-1, 3)
+    for fmt in ("glb", "ply", "off", "dict64"):
+        try:
+            big = tm.Trimesh(sv.copy(), sf.copy(), process=False)
+            r, src_ok = export_load(tm, big, fmt)
+        except BaseException as e:  # noqa
+            V.violation("large_indices:round_trip_raises", {"fmt": fmt, "exc": type(e).__name__ + ": " + str(e)[:80]})
+            continue
+        n += 1
+        kinds.add(("large_indices", fmt))
+        if not src_ok:
+            V.violation("large_indices:ExportLeavesSourceUnchanged", {"fmt": fmt})
+        tri = np.array(r.triangles)
+        if tri.shape != (nf, 3, 3) or not np.array_equal(tri, sv[sf]):
+            bad = int((np.abs(tri - sv[sf]).reshape(nf, -1).max(axis=1) > 0).sum()) if tri.shape == (nf, 3, 3) else -1
+            V.violation("large_indices:triangles_same_order", {"fmt": fmt, "faces": nf, "wrong_faces": bad})
     # coordinates that are not representable: loaded value equals the format's quantisation of the input
     x = np.array([[1 / 3, -2 / 7, 1e-20], [1e20, 123456.789, -0.1], [3.141592653589793, 2.718281828459045, 1.4142135623730951]])
     m0 = tm.Trimesh(x.copy(), [[0, 1, 2]], process=False)
